@@ -91,6 +91,10 @@ res.append(case('local-named-like-table', sub(base_ret,'order := [][]string{{"X"
 res.append(case('local-named-like-sentinel', sub(base_ret,'var ErrInvalidMetricValue error\n\tif ErrInvalidMetricValue != nil {\n\t\timpact = 0\n\t}\n\t'+base_ret)))
 res.append(case('range-assigning-existing-variable', sub(base_ret,'hit := 0.0\n\tfor _, hit = range []float64{1} {\n\t}\n\tif hit == 1 {\n\t\timpact = 0\n\t}\n\t'+base_ret)))
 res.append(case('range-assigning-field', sub(base_ret,'for _, cvss20.u0 = range []uint8{1} {\n\t}\n\t'+base_ret)))
+# found by the false-pass audit of round 8
+res.append(case('float-to-uint-idiom', sub(base_ret,'if uint64(impact-10.5)%5 == 0 {\n\t\timpact = 0\n\t}\n\t'+base_ret)))
+res.append(case('float-to-int-idiom-exact', sub(base_ret,'if int(impact*1152921504606846976)%8192 == 0 {\n\t\timpact = 0\n\t}\n\t'+base_ret), expect='translate', must='F64.intRemZero'))
+res.append(case('big-integer-constant-as-value', sub(base_ret,'n := 0x7fffffffffffffff\n\tif n+1 < n {\n\t\timpact = 0\n\t}\n\t'+base_ret)))
 shutil.rmtree(SCRATCH, ignore_errors=True)
 allok = all(r for r in res) and None not in res
 print('translator self-test:', 'ALL OK' if allok else 'FAILURES')
